@@ -114,6 +114,30 @@ def Mgr.surround (m : Mgr) (a b : Nat) : Except Err (Mgr × Nat) :=
   | .error e, _ => .error e
   | _, .error e => .error e
 
+/-! ### `print_stack_trace` cropping (rsjsonnet-front/src/session.rs) -/
+
+/-- What `print_stack_trace` shows for a trace of `n` items under `--max-trace m`:
+    `none` = everything; `some (firstStart, firstLen, hidden, secondLen)` = the slice
+    `stack[firstStart..]` (innermost frames), a note about `hidden` items, then
+    `stack[..secondLen]`. Slice bounds that would panic are not clamped here: the
+    theorems show they are in range. -/
+def traceCrop (n m : Nat) : Option (Nat × Nat × Nat × Nat) :=
+  if n ≤ m then none
+  else
+    let secondLen := m / 2
+    let firstLen := m - secondLen
+    some (n - firstLen, firstLen, n - m, secondLen)
+
+/-! ### Line/column of a byte offset (`src_pos_to_line_col` for ASCII prefixes) -/
+
+/-- 1-based line and column of byte offset `pos` in `src`, columns counted in bytes
+    (exact for lines whose prefix is printable ASCII without tabs). -/
+def lineCol (src : List Nat) (pos : Nat) : Nat × Nat :=
+  let pre := src.take pos
+  let line := (pre.filter (· = 10)).length + 1
+  let col := (pre.reverse.takeWhile (· ≠ 10)).length + 1
+  (line, col)
+
 /-! ### Driver: scripts of operations -/
 
 inductive Op where
